@@ -48,3 +48,80 @@ Theorem C02_unique_smallest : forall defs pv ms b,
     (forall b', In b' (resolved_of rs) -> size_of b <= size_of b') /\
     (filter (fun b' => size_of b' =? size_of b) (resolved_of rs) = [b]).
 Proof. exact resolve_encoding_strict. Qed.
+
+(* ===== the same theorems for the larger fragment of Model/Resolver2.v: #bankdef / #bank with per-bank cursors and
+   checked position arithmetic, nested symbols declared and referenced by dot level and path ===== *)
+From Coq Require Import NArith ZArith List Bool.
+From CA Require Import Model.Lexer Model.Parser Model.BigIntOps Model.Matcher Model.Evaluator Model.Resolver
+  Model.Resolver2 Spec.Certificate2 Proofs.Resolver2FixP Proofs.Resolver2MonoP Proofs.Resolver2TopP Proofs.Resolver2CertP
+  Proofs.Certificate2P.
+From CA Require Model.Overlap Model.Cursor Model.Output Model.Symbols Spec.OverlapSpec Spec.LayoutInv Proofs.OutputP.
+Import ListNotations.
+Open Scope Z_scope.
+
+Theorem C02b_certificate : forall indexed defs ps budget r,
+  assemble2 indexed defs ps budget = Ok r ->
+  exists m ns st1 st,
+    setup indexed defs ps = Some (m, ns, r_banks r, st1) /\
+    Certified2 m (r_banks r) defs max_bits ns st /\
+    r_syms r = symbol_values m st /\
+    out_nodes st ns = Ok (r_nodes r) /\
+    Output.output_stage (Z.to_N max_bits) (r_banks r) (r_nodes r) = Ok (r_bits r, r_items r) /\
+    (r_iters r <= budget)%nat.
+Proof. exact assemble2_certificate. Qed.
+
+Theorem C02b_resolved_pass_is_fixpoint : forall m banks defs mb last ns st st',
+  labels_ok2 ns st -> run_pass m banks defs mb last ns st = Ok (st', Resolved) -> st' = st.
+Proof. exact pass2_fix. Qed.
+
+Theorem C02b_no_output_without_fixpoint : forall m banks defs mb ns budget st st' n,
+  syms_distinct2 ns -> labels_ok2 ns st ->
+  loop2 m banks defs mb ns budget 0 budget st = Ok (st', n) ->
+  Certified2 m banks defs mb ns st' /\ (n <= budget)%nat.
+Proof. exact certificate2. Qed.
+
+Theorem C02b_symbol_indices_distinct : forall ps m ns, prepare ps = Some (m, ns) -> syms_distinct2 ns.
+Proof. exact prepare_distinct. Qed.
+
+Theorem C02b_label_is_address : forall m banks defs mb ns1 s d0 ctx ns2 st,
+  labels_ok2 (ns1 ++ (XLabel s d0, ctx) :: ns2) st -> Certified2 m banks defs mb (ns1 ++ (XLabel s d0, ctx) :: ns2) st ->
+  exists c0 p0 b pos,
+    walk banks mb ns1 st (Cursor.init_cursor banks) None = Ok (c0, p0) /\ visit banks mb (XLabel s d0, ctx) c0 p0 = Ok (b, pos) /\
+    (pos mod Cursor.bk_unit b = 0)%N /\
+    nth s (s_sym st) VUnknown = VInt (un (Cursor.bk_addr b + Z.of_N (pos / Cursor.bk_unit b))).
+Proof. exact certified2_label. Qed.
+
+Theorem C02b_instruction_recomputed : forall m banks defs mb ns1 i src ctx ns2 st,
+  labels_ok2 (ns1 ++ (XInstr i src, ctx) :: ns2) st -> Certified2 m banks defs mb (ns1 ++ (XInstr i src, ctx) :: ns2) st ->
+  exists c0 p0 b pos d,
+    walk banks mb ns1 st (Cursor.init_cursor banks) None = Ok (c0, p0) /\ visit banks mb (XInstr i src, ctx) c0 p0 = Ok (b, pos) /\
+    nth_error (s_instr st) i = Some d /\
+    resolve_encoding defs (pvar2 m st ctx (Cursor.eval_address mb b pos false) false) false (i_matches d) = EOk (Some (i_enc d)).
+Proof. exact certified2_instruction. Qed.
+
+Theorem C02b_output_is_layout_ok : forall indexed defs ps budget r,
+  assemble2 indexed defs ps budget = Ok r ->
+  Forall OutputP.no_empty_emit (r_nodes r) ->
+  LayoutInv.layout_ok (r_banks r) (r_items r) (r_bits r) = true /\ LayoutInv.windows_ok (r_banks r) = true.
+Proof. exact Resolver2TopP.C02b_output_is_layout_ok. Qed.
+
+Example C02b_nonvacuous :
+  exists r, assemble2 true [] ex_prog2 3 = Ok r /\
+    r_bits r = [false; false; false; true; false; false; false; false] /\ r_iters r = 2%nat /\
+    map snd (r_syms r) = [VInt (un 16); VInt (un 16); VInt (un 17)] /\
+    length (r_banks r) = 2%nat /\ Forall OutputP.no_empty_emit (r_nodes r).
+Proof. exact assemble2_nonvacuous. Qed.
+
+(* the executable checker run on the implementation's results decides the predicate of C02b_certificate *)
+
+Theorem C02b_checker_sound : forall indexed defs ps claimed banks out,
+  cert_check2 indexed defs ps claimed banks out = true ->
+  exists m ns st vs items,
+    prepare ps = Some (m, ns) /\
+    s_sym st = map (fun d => lookup_claim claimed (Symbols.sd_name d)) (Symbols.m_decls m) /\
+    Certified2 m banks defs max_bits ns st /\
+    out_nodes st ns = Ok vs /\
+    Output.output_stage (Z.to_N max_bits) banks vs = Ok (out, items).
+Proof. exact cert_check2_sound. Qed.
+
+(* ---------------- for Props/C09.v ---------------- *)
